@@ -128,6 +128,8 @@ def md_for(kind, axis, n):
         elif kind == 'mixednum':
             # a numeric category whose first value has the narrowest type
             d = {'score': [7, 6.5, 8.25, -0.75][i % 4], 'flag': [True, 3, 0, 2.5][i % 4]}
+        elif kind == 'subsetfirst':  # the first id carries a strict subset of the categories of the later ids
+            d = {'other': 'x%d' % i} if i == 0 else {'other': 'x%d' % i, 'label': 'val%d' % i}
         elif kind == 'casevariant':   # category names that differ from the reserved hierarchical ones in case only
             d = {'TAXONOMY': 'text%d' % i, 'Collapsed_IDs': i + 1, 'kegg_pathways': ['x', ''][i % 2]}
         elif kind == 'textws':       # text whose first / last character is white space (not in MD_KINDS, see 'edgews')
